@@ -194,6 +194,40 @@ pub fn run(tier: &str, seed: u64, only: Option<&str>) -> Run {
                     (Ok(Err(())), Ok(_)) => run.fail("oracle:try-mode-refused", "", &id, String::new(), repro.clone()),
                     _ => run.fail("oracle:performance-panic", "", &id, String::new(), repro.clone()),
                 }
+                // a full score specification (incl. priority, combo, tick counts) set BEFORE the
+                // conversion must mean the same as setting it on the converted builder
+                let mut spec = crate::c04::random_spec(&mut rng, conv.hit_objects.len().min(12) as u32);
+                // the osu! builder has no katu/geki fields: those setters are no-ops before the conversion
+                spec.n_katu = None;
+                spec.n_geki = None;
+                let sa = guarded(|| {
+                    spec.apply(Performance::new(&map).difficulty(difficulty.clone()))
+                        .try_mode(gm)
+                        .map(|p| format!("{:?}", p.calculate()))
+                        .map_err(|_| ())
+                });
+                let sb = guarded(|| format!("{:?}", spec.apply(Performance::new(conv).difficulty(difficulty.clone())).calculate()));
+                match (sa, sb) {
+                    (Ok(Ok(x)), Ok(y)) if x == y => {}
+                    (Ok(Ok(x)), Ok(y)) => run.fail(
+                        "oracle:spec-before-try-mode-ne-after",
+                        "",
+                        &id,
+                        format!("spec {spec:?}\nset before try_mode: {x}\nset on converted: {y}"),
+                        repro.clone(),
+                    ),
+                    (Err(_), Err(_)) => run.count("spec-both-panic"),
+                    _ => run.fail("oracle:spec-try-mode-error", "", &id, format!("spec {spec:?}"), repro.clone()),
+                }
+                let sc = guarded(|| {
+                    format!("{:?}", spec.apply(Performance::new(&map).difficulty(difficulty.clone())).mode_or_ignore(gm).calculate())
+                });
+                let sd = guarded(|| format!("{:?}", spec.apply(Performance::new(conv).difficulty(difficulty.clone())).calculate()));
+                if let (Ok(x), Ok(y)) = (&sc, &sd) {
+                    if x != y {
+                        run.fail("oracle:spec-before-mode-or-ignore-ne-after", "", &id, format!("spec {spec:?}\n{x}\n{y}"), repro.clone());
+                    }
+                }
                 let pc = guarded(|| perf(Performance::new(&map).difficulty(difficulty.clone()).mode_or_ignore(gm)));
                 let pd = guarded(|| perf(Performance::new(conv)));
                 if let (Ok(x), Ok(y)) = (&pc, &pd) {
